@@ -28,7 +28,7 @@ Lookup(s, m) == LET r == SelectSeq(s, LAMBDA x : x.m = m) IN IF r = <<>> THEN [m
 TInit ==
     /\ l = 1 /\ tg = NoTg
     /\ Init
-    /\ conf = [useLogger |-> TRUE, recheck |-> TRUE, safeEnv |-> TRUE, locks |-> TRUE, eager |-> TRUE, rt |-> TRUE, disc |-> TRUE]
+    /\ conf = [useLogger |-> TRUE, recheck |-> TRUE, safeEnv |-> TRUE, locks |-> TRUE, eager |-> TRUE, rt |-> TRUE, disc |-> TRUE, fatalEvery |-> 0]
     /\ todo = [t \in Producers |-> <<>>]
     /\ script = [s \in Stoppers |-> <<>>]
 
@@ -141,7 +141,9 @@ TPt ==
              [] p = "oth.posted"     -> At(t, "oth.posted")
              [] p = "oth.sync.begin" -> Branch(t) /\ UNCHANGED conf /\ ~wptr
              [] p = "oth.sync.end"   -> At(t, "oth.sync.end")
-             [] p = "pm.done"        -> UnlockH(t) /\ UNCHANGED conf /\ conf.useLogger
+             [] p = "pm.done"        -> /\ conf.useLogger
+                                        /\ \/ UnlockH(t) /\ UNCHANGED conf /\ pc'[t] = "pm.done"       \* no flush was due
+                                           \/ At(t, "pm.done")                                          \* after the flush
              [] p = "wk.begin"       -> t = W /\ WTake /\ UNCHANGED conf
              [] p = "wk.processed"   -> At(W, "wk.processed") /\ t = W
              [] p = "wk.end"         -> t = W /\ WBack /\ UNCHANGED conf
@@ -168,6 +170,19 @@ TDeliver ==
     /\ LET e == Lookup(tg.e, Msg(ev.m)).v IN e = -1 \/ ev.time <= e     \* ... and before it returned
     /\ PipeRun(ev.t) /\ UNCHANGED conf
     /\ tg' = [tg EXCEPT !.d = Append(@, [m |-> Msg(ev.m), v |-> ev.time])]
+
+\* the flush walk of a synchronously processed fatal message, seen from inside a sink
+TFlush ==
+    /\ IsEvent("Flush") /\ KeepTg /\ UNCHANGED conf
+    /\ IF ev.ph = "begin"
+       THEN LET t == ev.t IN                                  \* UnlockH, then FlushBegin
+            /\ pc[t] \in {"oth.posted", "oth.sync.end"} /\ NeedsFlush(t)
+            /\ hm' = (IF hm = t THEN NoOne ELSE hm)
+            /\ inPipe' = inPipe \cup {t}
+            /\ Goto(t, "pm.flushing")
+            /\ UNCHANGED <<lm, tptr, wptr, thr, wobj, queue, pending, app, hooked, hobj, stale, cur, todo, script, ctr, rd,
+                           delivered, accepted, ghost>>
+       ELSE FlushEnd(ev.t)
 
 TExit == IsEvent("Exit") /\ KeepTg /\ cur[ev.t] = Msg(ev.m) /\ PipeExit(ev.t) /\ UNCHANGED conf
 
@@ -199,7 +214,7 @@ TGate == IsEvent("GateOpen") /\ KeepTg /\ Same
 \* the one step no event is logged for: the worker's lock-free decrement of the pending counter
 TInternal == UNCHANGED <<l, tg, conf>> /\ (WDec \/ \E s \in Stoppers : TSeeBusy(s))
 
-TNext == TReset \/ TCallBegin \/ TCallEnd \/ TPt \/ TEnter \/ TDeliver \/ TExit \/ TOp \/ TApp \/ TFinished \/ TGate
+TNext == TReset \/ TCallBegin \/ TCallEnd \/ TPt \/ TEnter \/ TDeliver \/ TExit \/ TFlush \/ TOp \/ TApp \/ TFinished \/ TGate
          \/ TInternal
 
 TraceSpec == TInit /\ [][TNext]_tvars
